@@ -51,6 +51,12 @@ Proof. vm_compute. reflexivity. Qed.
 Theorem C06_sync_copies_all_but_none : x_sync_data_guard_is_not_none = true.
 Proof. vm_compute. reflexivity. Qed.
 
+(* ... and never writes (clears) the worker-local tables: the local store
+   keeps describing which indices of its blocks are in use *)
+Theorem C06_sync_leaves_local_tables_alone :
+  occ_list is_wr_any tk_sync_local = 0%nat.
+Proof. vm_compute. reflexivity. Qed.
+
 (* parametric theorem: ANY pair of skeletons passing the checks *)
 Theorem C06_safe_for_well_locked_skeletons : forall skp sks,
   well_locked_pre skp = true -> well_locked_sync sks = true ->
